@@ -4,10 +4,11 @@ Fail-closed: any source shape it does not recognise raises."""
 from __future__ import annotations
 
 import ast
+import os
 from pathlib import Path
 
-SRC = Path("/repo/src/tickit")
-OUT = Path("/verif/coq/Gen/SourceConsts.v")
+SRC = Path(os.environ.get("VERIF_REPO") or "/repo") / "src" / "tickit"
+OUT = Path(os.environ.get("VERIF_ROOT") or "/verif") / "coq" / "Gen" / "SourceConsts.v"
 
 
 class Unrecognised(Exception):
